@@ -32,6 +32,10 @@ def run(m: Model, r: Report, tier: str) -> None:
            "end of the scan, included)", floor=3)
     from sa.uds_rules import range_helpers_rule
     range_helpers_rule(m, r, "R10")
+    r.rule("R11", "a reply is attributed to the probe it answers: the service scanner sends raw requests, and parse_pdu refuses a stale reply (positive or negative) that "
+           "names another service instead of counting it for the current probe", floor=1)
+    from sa.uds_rules import parse_pdu_request_consistency
+    parse_pdu_request_consistency(m, r, "R11")
     r.rule("R9", "skip maps: a bare outer key means 'all' - it is stored unconditionally and never replaced or extended by later listings", floor=3)
 
     ps = m.require_function(f"{SVC}.ServicesScanner.perform_scan")
